@@ -28,6 +28,7 @@ import (
 	"github.com/dgraph-io/badger/v4/fb"
 	"github.com/dgraph-io/badger/v4/options"
 	"github.com/dgraph-io/badger/v4/pb"
+	"github.com/dgraph-io/badger/v4/verifhook"
 	"github.com/dgraph-io/badger/v4/y"
 	"github.com/dgraph-io/ristretto/v2"
 	"github.com/dgraph-io/ristretto/v2/z"
@@ -162,6 +163,7 @@ func (t *Table) DecrRef() error {
 		if err := t.Delete(); err != nil {
 			return err
 		}
+		verifhook.FS("unlink", "sst", int64(t.id), 0)
 	}
 	return nil
 }
@@ -258,6 +260,7 @@ func CreateTable(fname string, builder *Builder) (*Table, error) {
 	if err := z.Msync(mf.Data); err != nil {
 		return nil, y.Wrapf(err, "while calling msync on %s", fname)
 	}
+	verifhook.FS("sync", fname, 0, int64(written))
 	return OpenTable(mf, *builder.opts)
 }
 
